@@ -2,7 +2,8 @@ CHECK = {
     "level": "fault_enumeration",
     "assumptions": [
         "a fresh, never reused instance of the underlying library (compress/gzip, compress/zlib, klauspost/compress/zstd, andybalholm/brotli, golang/snappy) is a correct codec for the algorithm the HTTP name denotes (gzip=RFC 1952, deflate=zlib RFC 1950, br, zstd, snappy framing format); it is the oracle for what the wrappers in internal/compression do around it",
-        "single-goroutine use of one instance (as a pool hands it out); no concurrent use of the same instance",
+        "single-goroutine use of one instance (as a pool hands it out); no concurrent use of the same instance; two instances are used from one goroutine with their operations interleaved (Reset and the reads that follow are separate operations), which stands for two messages in flight at a time",
+        "peer unit: the reference server is started in-process through createServer (HTTP/1.1, loopback TCP) and fed by a plain net/http client with hand-built Connect unary and gRPC-Web bodies; only compressible contents are sent, so that the compressed form stays below the receive limit (the limit being applied to the compressed bytes as well is C19's known finding)",
         "operations on an instance that was never Reset (Read/Write/Close before the first Reset) are outside the pooled protocol: a panic there is recorded as an outcome, not as a violation",
         "histories with several corrupt decodes are instantiated with the diagonal and with the product of behaviour-class representatives (thorough: full product of all corruptions for two corrupt decodes up to length 3, *bytes.Buffer source), not with the full product of all corruptions",
         "the names the reference peers register with connect-go are read from the source of server.go / client.go (call sites of connect.WithCompression / WithAcceptCompression / WithSendCompression); the end-to-end use of these registrations is C01's subject",
@@ -10,7 +11,7 @@ CHECK = {
     "manifest": {
         "engine": "ENUM",
         "technique": "bounded-exhaustive breadth-first search over operation histories of a pooled instance, with complete single-fault enumeration (every bit flip, every truncation) of the input stream, against independent decoders",
-        "text": "For each of the 6 encodings and 5 inputs (empty, 1 byte, repetitive, 256 distinct bytes, 64 KB pseudo-random) every history of length <=3 (quick) / <=4 (thorough) over the operations of one compressor (Reset to buffer/io.Discard/failing sink, Write, Close) or decompressor (decode valid, decode corrupt, Reset(http.NoBody), Close, Read, pool-put) obtained once from compression.GetCompressor/GetDecompressor is replayed on a fresh instance and followed by the oracle: the decompressor must return exactly the original bytes for the valid stream, the compressor's output must be decoded to the original by an independent decoder; corrupt ranges over every single-bit flip and every proper prefix of the valid stream of the short inputs; no operation may panic. A second unit checks that the same name denotes the same algorithm in compression.GetCompressor/GetDecompressor, tracer.GetDecompressor, the reference server's checkCompression mapping, the constructor pairs the reference server and client register with connect-go, the raw-payload encoder and the independent codecs, in both directions.",
+        "text": "For each of the 6 encodings and 5 inputs (empty, 1 byte, repetitive, 256 distinct bytes, 64 KB pseudo-random) every history of length <=3 (quick) / <=4 (thorough) over the operations of one compressor (Reset to buffer/io.Discard/failing sink, Write, Close) or decompressor (decode valid, decode corrupt, Reset(http.NoBody), Close, Read, pool-put) obtained once from compression.GetCompressor/GetDecompressor is replayed on a fresh instance and followed by the oracle: the decompressor must return exactly the original bytes for the valid stream, the compressor's output must be decoded to the original by an independent decoder; corrupt ranges over every single-bit flip and every proper prefix of the valid stream of the short inputs; no operation may panic. Histories over TWO instances (of the same encoding: length <=3 [4], inputs (ab300, bytes256), (empty, a) [+ (a, lcg64k)]; of two different encodings, all 30 ordered pairs: length <=2 [3]; compressors one shorter): operations {V, S Reset(valid) only, D read all, C, X, P} / {B, W, X, D} on either instance in every interleaving, the second instance created at the start or at its first use, followed by the interleaved oracle phase 0S 1S 0D 1D (0B 1B 0W 1W 0X 1X): every instance must return / emit ITS OWN input. A peer unit sends, to the reference server built by createServer {no receive limit, 200 KiB [+1 MiB]} x {plain, reference mode}, Unary requests as Connect unary and gRPC-Web, compressed with each encoding by {compression.GetCompressor, a fresh library encoder}, of serialized size 8 and 2^k-1, 2^k, 2^k+1 (k = 10..17 [..20]) up to the limit, limit-1 and limit, contents {zeros, half pseudo-random}: accepted, echoed request identical, response (same encoding offered) decodable by the library decoder. A further unit checks that the same name denotes the same algorithm in compression.GetCompressor/GetDecompressor, tracer.GetDecompressor, the reference server's checkCompression mapping, the constructor pairs the reference server and client register with connect-go, the raw-payload encoder and the independent codecs, in both directions.",
         "note": "Fresh library instances are trusted as oracle. Multi-corruption histories use representatives (stated in the rule). Concurrency on one instance is not explored.",
         "design_ref": "DESIGN.md §2.2, §4 C20",
     },
@@ -21,6 +22,13 @@ CHECK = {
             "test": "^TestVerifC20Hist$",
             "shards": {"quick": 16, "thorough": 16},
             "budget_s": {"quick": 50, "thorough": 500},
+        },
+        {
+            "name": "c20-peer", "pkg": "internal/app/referenceserver",
+            "harness": ["referenceserver/c20_peer_test.go", "referenceserver/c20_agree_test.go"],
+            "test": "^TestVerifC20Peer$",
+            "shards": {"quick": 8, "thorough": 16},
+            "budget_s": {"quick": 30, "thorough": 200},
         },
         {
             "name": "c20-agree", "pkg": "internal/app/referenceserver",
